@@ -1096,3 +1096,86 @@ func loopHeaderOf(in ssa.Instruction) *ssa.BasicBlock {
 	}
 	return header
 }
+
+// instrReachableFromPoint: target is reachable from the program point pt.
+func instrReachableFromPoint(pt Point, target ssa.Instruction) bool {
+	return reaches([]Point{pt}, nil, func(in ssa.Instruction) bool { return in == target }) != nil
+}
+
+// condValue evaluates a boolean SSA value given truth values for some leaves (identified by the
+// caller's key function: two loads of the same field are the same leaf). ok=false: not determined.
+func condValue(v ssa.Value, leaf func(ssa.Value) string, known map[string]bool) (val, ok bool) {
+	if b, okc := constBool(v); okc {
+		return b, true
+	}
+	if k := leaf(v); k != "" {
+		val, ok = known[k]
+		return
+	}
+	switch x := v.(type) {
+	case *ssa.UnOp:
+		if x.Op == token.NOT {
+			if r, ok2 := condValue(x.X, leaf, known); ok2 {
+				return !r, true
+			}
+		}
+	case *ssa.BinOp:
+		switch x.Op {
+		case token.EQL, token.NEQ:
+			l, ok1 := condValue(x.X, leaf, known)
+			r, ok2 := condValue(x.Y, leaf, known)
+			if ok1 && ok2 {
+				return (l == r) == (x.Op == token.EQL), true
+			}
+		}
+	}
+	return false, false
+}
+
+// reachesUnder is reaches() restricted to the paths consistent with the known leaf values: at a
+// branch whose condition is determined only the taken successor is followed (short-circuit
+// operators are already branches in SSA, so && and || need no special case).
+func reachesUnder(starts []Point, leaf func(ssa.Value) string, known map[string]bool, stop func(ssa.Instruction) bool, target func(ssa.Instruction) bool) ssa.Instruction {
+	seen := map[*ssa.BasicBlock]bool{}
+	work := append([]Point(nil), starts...)
+	for len(work) > 0 {
+		pt := work[len(work)-1]
+		work = work[:len(work)-1]
+		if pt.I == 0 {
+			if seen[pt.B] {
+				continue
+			}
+			seen[pt.B] = true
+		}
+		stopped := false
+		for i := pt.I; i < len(pt.B.Instrs); i++ {
+			in := pt.B.Instrs[i]
+			if stop != nil && stop(in) {
+				stopped = true
+				break
+			}
+			if target(in) {
+				return in
+			}
+		}
+		if stopped {
+			continue
+		}
+		succs := pt.B.Succs
+		if iff, ok := pt.B.Instrs[len(pt.B.Instrs)-1].(*ssa.If); ok {
+			if v, okv := condValue(iff.Cond, leaf, known); okv {
+				if v {
+					succs = succs[:1]
+				} else {
+					succs = succs[1:2]
+				}
+			}
+		}
+		for _, s := range succs {
+			if !seen[s] {
+				work = append(work, Point{s, 0})
+			}
+		}
+	}
+	return nil
+}
